@@ -171,7 +171,7 @@ def _nested_dicts_to_dotted_keys(d, key=None):
                 k_ = k if key is None else ".".join((key, k))
                 yield from _nested_dicts_to_dotted_keys(d[k], key=k_)
         elif key is not None:
-            yield key, d
+            yield key, _hashable_dict(d)
     else:
         if type(d) is list:
             d = _to_hashable(d)
